@@ -9,6 +9,7 @@ package csched
 import (
 	"fmt"
 	"hash/fnv"
+	"os"
 	"runtime"
 	"runtime/debug"
 	"sort"
@@ -31,6 +32,13 @@ type Thread struct {
 	children int
 }
 
+// Op is the pending operation of a thread: what it will do when it is scheduled next.
+type Op struct {
+	T    int
+	Kind string
+	Obj  int
+}
+
 // Point is one recorded decision of an execution.
 type Point struct {
 	N           int  // number of alternatives (>= 2)
@@ -38,6 +46,10 @@ type Point struct {
 	Env         bool // environment answer (true) or thread choice (false)
 	PreemptCost bool // thread choice: alternatives != 0 preempt a runnable thread
 	Label       string
+	// sleep-set mode only: the pending operations of the alternatives (thread points) and the sleep set in
+	// force at this node before the choice (thread points) / at this moment (environment points)
+	En    []Op
+	Sleep []Op
 }
 
 // Result is what one execution produced.
@@ -67,6 +79,12 @@ type Options struct {
 	// parties / thread roles as different deterministic baseline schedules.
 	// Threads started by the code under test inherit "<parent name>/<n>".
 	Priority func(name string) int
+	// SleepMode switches on sleep sets (partial-order reduction for UNBOUNDED exploration: at least one
+	// interleaving of every Mazurkiewicz trace is executed). Sleep is the sleep set to install when the last
+	// choice of the replayed prefix has been taken. Two operations are dependent iff they are on the same
+	// object group (see Alias) or one of them has no object.
+	SleepMode bool
+	Sleep     []Op
 }
 
 // Exec is the state of the running execution.
@@ -91,6 +109,8 @@ type Exec struct {
 	timers  []*Timer
 	now     int64
 	timerSq int
+	sleep   []Op
+	group   map[int]int
 }
 
 // Timer is a pending virtual timer. Virtual time advances only when no thread
@@ -278,7 +298,11 @@ func (e *Exec) finish(outcome, detail string) {
 }
 
 func (e *Exec) nextChoice(n int, env, preemptCost bool, label string) int {
-	c := 0
+	return e.nextChoiceDef(n, env, preemptCost, label, 0)
+}
+
+func (e *Exec) nextChoiceDef(n int, env, preemptCost bool, label string, def int) int {
+	c := def
 	i := len(e.points)
 	if i < len(e.prefix) {
 		c = e.prefix[i]
@@ -350,7 +374,12 @@ func (e *Exec) schedule(self *Thread) {
 		return
 	}
 	choice := 0
-	if len(en) > 1 {
+	if e.opts.SleepMode {
+		choice = e.sleepChoose(self, en)
+		if choice < 0 {
+			return
+		}
+	} else if len(en) > 1 {
 		preempt := en[0] == self
 		if preempt && e.opts.PreemptKinds != nil && !e.opts.PreemptKinds[self.kind] {
 			// not a preemption point for this exploration: keep running
@@ -373,6 +402,121 @@ func (e *Exec) schedule(self *Thread) {
 	if e.aborted {
 		panic(abortSignal{})
 	}
+}
+
+// ---- sleep sets ----
+
+func (t *Thread) op() Op {
+	if t.kind == "start" {
+		// the first transition of a thread performs no operation on any object: it is dependent on nothing
+		// but the thread's own later operations (the code up to its first operation is ordinary thread code,
+		// which by data-race freedom conflicts with nothing that is not ordered by a synchronisation operation)
+		return Op{T: t.ID, Kind: t.kind, Obj: -(t.ID + 1)}
+	}
+	return Op{T: t.ID, Kind: t.kind, Obj: t.obj}
+}
+
+func (e *Exec) groupOf(obj int) int {
+	for {
+		g, ok := e.group[obj]
+		if !ok || g == obj {
+			return obj
+		}
+		obj = g
+	}
+}
+
+// Alias declares that operations on objects a and b are dependent (one dependence group): used where an operation
+// labelled with one object also changes the state another object's operations look at (the two ends of a link, a
+// condition variable and its mutex).
+func Alias(a, b int) {
+	e := cur
+	if e == nil || a == 0 || b == 0 {
+		return
+	}
+	if e.group == nil {
+		e.group = map[int]int{}
+	}
+	ga, gb := e.groupOf(a), e.groupOf(b)
+	if ga != gb {
+		e.group[ga] = gb
+	}
+}
+
+func (e *Exec) dependent(a, b Op) bool {
+	if a.T == b.T || a.Obj == 0 || b.Obj == 0 {
+		return true
+	}
+	if readOnly[a.Kind] && readOnly[b.Kind] {
+		return false
+	}
+	return e.groupOf(a.Obj) == e.groupOf(b.Obj)
+}
+
+// readOnly operations do not change the state of their object: two of them commute.
+var readOnly = map[string]bool{"aload": true, "pload": true, "vload": true}
+
+func asleep(sleep []Op, t int) bool {
+	for _, o := range sleep {
+		if o.T == t {
+			return true
+		}
+	}
+	return false
+}
+
+// wake removes from the sleep set every operation dependent on the executed one.
+func (e *Exec) wake(sleep []Op, done Op) []Op {
+	out := sleep[:0:0]
+	for _, o := range sleep {
+		if !e.dependent(o, done) {
+			out = append(out, o)
+		}
+	}
+	return out
+}
+
+// sleepChoose is the scheduling decision in sleep-set mode: sleeping threads are not chosen; if every enabled
+// thread sleeps the execution is redundant (an equivalent interleaving is explored elsewhere) and ends with the
+// outcome "sleep-blocked". Returns -1 if the execution ended.
+func (e *Exec) sleepChoose(self *Thread, en []*Thread) int {
+	replaying := len(e.points) < len(e.prefix)
+	def := 0
+	if !replaying {
+		def = -1
+		for i, t := range en {
+			if !asleep(e.sleep, t.ID) {
+				def = i
+				break
+			}
+		}
+		if def < 0 {
+			e.finish("sleep-blocked", "")
+			if !self.done {
+				panic(abortSignal{})
+			}
+			return -1
+		}
+	}
+	choice := def
+	if len(en) > 1 {
+		choice = e.nextChoiceDef(len(en), false, en[0] == self, "", def)
+		pt := &e.points[len(e.points)-1]
+		pt.En = make([]Op, len(en))
+		for i, t := range en {
+			pt.En[i] = t.op()
+		}
+		pt.Sleep = append([]Op(nil), e.sleep...)
+	}
+	if replaying {
+		if len(e.points) == len(e.prefix) && len(en) > 1 {
+			// the last choice of the prefix has just been taken: install the sleep set the explorer computed
+			e.sleep = e.wake(append([]Op(nil), e.opts.Sleep...), en[choice].op())
+		}
+	} else {
+		e.sleep = e.wake(e.sleep, en[choice].op())
+	}
+	return choice
 }
 
 func (e *Exec) hashState() uint64 {
@@ -457,7 +601,27 @@ func Choose(label string, n int) int {
 	if e.aborted {
 		panic(abortSignal{})
 	}
-	return e.nextChoice(n, true, false, label)
+	c := e.nextChoice(n, true, false, label)
+	if e.opts.SleepMode {
+		if len(e.points) == len(e.prefix) {
+			e.sleep = append([]Op(nil), e.opts.Sleep...)
+		}
+		e.points[len(e.points)-1].Sleep = append([]Op(nil), e.sleep...)
+	}
+	return c
+}
+
+// InSleepMode reports whether the running execution uses sleep sets (unbounded exploration).
+func InSleepMode() bool { return must().opts.SleepMode }
+
+// Barrier is a scheduling point that is dependent on every other operation. Harness threads call it before they
+// touch harness state shared between threads, so that such accesses form their own transition. It exists only in
+// sleep-set mode (a no-op otherwise, so bounded explorations are unchanged).
+func Barrier() {
+	e := must()
+	if e.opts.SleepMode {
+		sp(e, e.cur, "barrier", 0, nil)
+	}
 }
 
 // NewObj registers a shim object; hasher (may be nil) contributes to the
@@ -514,10 +678,12 @@ type Explorer struct {
 	Transitions int64
 	Truncated   bool
 	MaxPoints   int
+	// SleepBlocked counts the redundant executions cut by sleep sets (ExploreUnbounded).
+	SleepBlocked int64
 }
 
 type pending struct {
-	d int // number of deviations in the prefix (depth in the exploration tree)
+	d       int // number of deviations in the prefix (depth in the exploration tree)
 	prefix  []int
 	p, e, f int
 }
@@ -626,6 +792,99 @@ func (x *Explorer) Explore(system func(), visit func(r *Result, preemptions, dev
 	}
 }
 
+// ExploreUnbounded runs system under at least one interleaving of every Mazurkiewicz trace (sleep sets), with
+// every environment answer, without any bound on preemptions. visit is called for every complete execution;
+// executions that end "sleep-blocked" (redundant) are only counted. Stop/MaxQueue cut the search (Truncated).
+func (x *Explorer) ExploreUnbounded(system func(), visit func(r *Result) bool) {
+	if x.NShards == 0 {
+		x.NShards = 1
+	}
+	if x.MaxQueue == 0 {
+		x.MaxQueue = 4000000
+	}
+	sd := x.ShareDepth
+	if sd == 0 {
+		sd = 1
+	}
+	type node struct {
+		prefix []int
+		sleep  []Op
+		d      int
+	}
+	stack := []node{{}}
+	child := 0
+	for len(stack) > 0 {
+		if x.Stop != nil && x.Stop() {
+			x.Truncated = true
+			return
+		}
+		it := stack[len(stack)-1]
+		stack = stack[:len(stack)-1]
+		opts := x.Opts
+		opts.SleepMode = true
+		opts.Sleep = it.sleep
+		res := Run(it.prefix, opts, system)
+		if os.Getenv("CSCHED_DEBUG") != "" {
+			fmt.Fprintf(os.Stderr, "U: prefix=%v sleep=%v -> %s points=%d choices=%v stack=%d\n", it.prefix, it.sleep, res.Outcome, len(res.Points), res.Choices, len(stack))
+		}
+		shared := it.d <= sd && x.NShards > 1
+		if !shared || x.Shard == 0 {
+			x.Transitions += int64(res.Steps)
+			if res.Outcome == "sleep-blocked" {
+				x.SleepBlocked++
+			} else {
+				x.Executions++
+				if len(res.Points) > x.MaxPoints {
+					x.MaxPoints = len(res.Points)
+				}
+				if !visit(res) {
+					return
+				}
+			}
+		}
+		if res.Outcome == "stuck" {
+			return
+		}
+		push := func(i, alt int, sleep []Op) {
+			if it.d == sd && x.NShards > 1 {
+				child++
+				if child%x.NShards != x.Shard {
+					return
+				}
+			}
+			if len(stack) >= x.MaxQueue {
+				x.Truncated = true
+				return
+			}
+			np := make([]int, i+1)
+			copy(np, res.Choices[:i])
+			np[i] = alt
+			stack = append(stack, node{prefix: np, sleep: sleep, d: it.d + 1})
+		}
+		// deepest nodes are pushed last and therefore explored first (depth-first)
+		for i := len(it.prefix); i < len(res.Points); i++ {
+			pt := res.Points[i]
+			if pt.Env {
+				for alt := 0; alt < pt.N; alt++ {
+					if alt != pt.Chosen {
+						push(i, alt, pt.Sleep)
+					}
+				}
+				continue
+			}
+			acc := append([]Op(nil), pt.Sleep...)
+			acc = append(acc, pt.En[pt.Chosen])
+			for alt := 0; alt < pt.N; alt++ {
+				if alt == pt.Chosen || asleep(pt.Sleep, pt.En[alt].T) {
+					continue
+				}
+				push(i, alt, append([]Op(nil), acc...))
+				acc = append(acc, pt.En[alt])
+			}
+		}
+	}
+}
+
 // SelfTest checks the explorer on a built-in lost-update harness whose
 // violation needs exactly one preemption.
 func SelfTest() error {
@@ -678,6 +937,89 @@ func SelfTest() error {
 	}
 	if obs[0] != obs[1] {
 		return fmt.Errorf("csched self-test: default schedule not deterministic: %s vs %s", obs[0], obs[1])
+	}
+	return nil
+}
+
+// SleepSelfTest checks the sleep-set reduction against full enumeration on a built-in program.
+func SleepSelfTest() error { return sleepSelfTest() }
+
+// sleepSelfTest: on a three-thread store-buffer style program over three cells plus a mutex-protected counter the
+// set of final observations found with sleep sets must equal the set found by enumerating every interleaving, with
+// fewer executions; and the lost update must be found.
+func sleepSelfTest() error {
+	system := func() {
+		var a, b, c, m, cnt, r1, r2 int
+		ida, idb, idm := NewObj(nil), NewObj(nil), NewObj(nil)
+		done := 0
+		lock := func() { SchedPoint("lock", idm, func() bool { return m == 0 }); m = 1 }
+		unlock := func() { SchedPoint("unlock", idm, nil); m = 0 }
+		GoNamed("t1", func() {
+			SchedPoint("store", ida, nil)
+			a = 1
+			lock()
+			cnt++
+			unlock()
+			done++
+		})
+		GoNamed("t2", func() {
+			SchedPoint("store", idb, nil)
+			b = 1
+			SchedPoint("load", ida, nil)
+			r2 = a
+			done++
+		})
+		GoNamed("t3", func() {
+			lock()
+			cnt *= 2
+			c = cnt
+			unlock()
+			r1 = 0
+			done++
+		})
+		SchedPoint("join", 0, func() bool { return done == 3 })
+		Observe("a=%d b=%d c=%d r1=%d r2=%d cnt=%d", a, b, c, r1, r2, cnt)
+	}
+	collect := func(sleep bool) (map[string]bool, int64, int64, error) {
+		set := map[string]bool{}
+		x := &Explorer{PBound: 1 << 20, EBound: 1 << 20}
+		var err error
+		visit := func(r *Result) bool {
+			if r.Outcome != "ok" || len(r.Obs) != 1 {
+				err = fmt.Errorf("csched sleep self-test: outcome %s %s", r.Outcome, r.Detail)
+				return false
+			}
+			set[r.Obs[0]] = true
+			return true
+		}
+		if sleep {
+			x.ExploreUnbounded(system, visit)
+		} else {
+			x.Explore(system, func(r *Result, p, e int) bool { return visit(r) })
+		}
+		return set, x.Executions, x.SleepBlocked, err
+	}
+	full, nfull, _, err := collect(false)
+	if err != nil {
+		return err
+	}
+	red, nred, _, err := collect(true)
+	if err != nil {
+		return err
+	}
+	if len(full) != len(red) {
+		return fmt.Errorf("csched sleep self-test: %d distinct outcomes by full enumeration (%d executions), %d with sleep sets (%d executions)", len(full), nfull, len(red), nred)
+	}
+	for k := range full {
+		if !red[k] {
+			return fmt.Errorf("csched sleep self-test: outcome %q lost by the reduction", k)
+		}
+	}
+	if os.Getenv("CSCHED_SELFTEST_VERBOSE") != "" {
+		fmt.Printf("sleep self-test: full %d executions, reduced %d, outcomes %d\n", nfull, nred, len(full))
+	}
+	if nred >= nfull || len(full) < 4 {
+		return fmt.Errorf("csched sleep self-test: no reduction or vacuous (%d vs %d executions, %d outcomes)", nred, nfull, len(full))
 	}
 	return nil
 }
